@@ -60,6 +60,8 @@ DISPATCH_MECHS = {
 def gen_cases(tier, seed):
     n = 40 if tier == "quick" else 1000
     cases = [{"id": f"c10-seed-{k}", "seed": seed, "scenario": k} for k in SCENARIOS]
+    from vmon.checks import c09
+    cases += c09.example_cases("c10", tier, seed + 1)
     cases += [{"id": f"c10-{seed}-{i}", "seed": seed * 7919 + i, "nhist": 3} for i in range(n)]
     return cases
 
@@ -209,6 +211,14 @@ def add_hostility(rng, spec):
 
 
 def run_case(case):
+    if case.get("kind") == "examples":
+        from vmon.checks import c09
+        res = c09.run_examples(case, mechs=DISPATCH_MECHS)
+        for key in ["builds", "dispatch_decisions", "dispatches", "cached_rows_compared", "phase_ends",
+                    "phase_ends_draining", "holds", "deferred_events", "commits_checked", "serial_builds",
+                    "quiescent_checks"]:
+            res["counters"].setdefault(key, 0)
+        return res
     rng = random.Random(case["seed"])
     counters = dict.fromkeys(["evaluations", "builds", "dispatch_decisions", "dispatches",
                               "cached_rows_compared", "phase_ends", "phase_ends_draining", "holds",
